@@ -7,6 +7,10 @@ props = [json.loads(l) for l in open(os.path.join(VERIF, "properties.jsonl"))]
 TB = "TLC; the TLA+ modules under /verif/spec; the harness's observation code (interposed mmap/munmap/mprotect/__clear_cache, memory watch, child-process runner); Linux kernel behaviour"
 
 CLAIMED = {
+ "C13": ("model_checking", "Scratch as a formula over the ISA models: recorded entry/trampoline bytes of short- and long-form redirections (native x86-64 placements; simulated arm64/arm emitters) executed by TLC, only rax/r10/r11 (x9-x17; r12) may be written; assembly caller/fake probes with random register files and Rust-level 14-argument / large-struct / pair-return fakes validated by TLC (Trace_Regs).", "5 C13",
+         "trace validation of recorded machine code on ISA models + register-file probes validated by TLC"),
+ "C14": ("model_checking", "MC_Async: every sequence of New/Fake/Await/Drop over three sibling async functions (two sharing an output type) with LastFakeWins / FakedOnlyWhileAlive; each sequence replayed under a poll-counting executor (same and other thread) and validated by TLC (Trace_Async); plus fixed shapes (method, unit, 256-byte output, by-reference parameter) and the wrong-output-type refusal.", "5 C14",
+         "TLC exhaustive enumeration + spec->impl replay + trace validation"),
  "C08": ("model_checking", "MC_Arms: the reference meaning FakeCall(opts) explored over every option set, script and N; every arm of the macro is extracted from the source at check time, instantiated (rustc decides 'compiles') and driven through every script of <=3/4 calls x N in 0..2 in child processes; per-call outcome, side-effect cell, returns-evaluation count and exit verdict validated by TLC against FakeCall (Trace_Arms).", "5 C08",
          "TLC-checked reference semantics + per-arm generated instantiations validated by TLC"),
  "C04": ("model_checking", "MC_Lock: all interleavings of 3 threads x {injector, preventer} x {drop, panic} with Mutex / PrevSeesOrig / OwnFakes / FreeMeansOrig and hand-over liveness under weak fairness; TLC-generated schedules executed in lock-step on real threads (blocked actions must not complete, enabled ones must); free-running perturbed threads validated by TLC (Trace_Lock); the guard's state read at every OS call of install/drop (Trace_Api).", "5 C04",
